@@ -140,7 +140,7 @@ impl<S: Signal> Signal for Counted<S> {
 #[derive(Clone, Copy, PartialEq, Debug)]
 enum Ctor { P(f64), S(f64), H(f64, f64), M }
 #[derive(Clone, Copy, PartialEq, Debug)]
-enum Op { Out, Mul(f64), SetP(f64), SetS(f64), SetH(f64, f64), Until(usize) }
+enum Op { Out, Mul(f64), SetP(f64), SetS(f64), SetH(f64, f64), Until(usize), Src }
 fn hx(x: f64) -> String { format!("{:016x}", x.to_bits()) }
 fn show_ctor(c: &Ctor) -> String {
     match c { Ctor::P(s) => format!("p{}", hx(*s)), Ctor::S(s) => format!("s{}", hx(*s)), Ctor::H(a, b) => format!("h{}:{}", hx(*a), hx(*b)), Ctor::M => "m".into() }
@@ -148,7 +148,7 @@ fn show_ctor(c: &Ctor) -> String {
 fn show_op(o: &Op) -> String {
     match o {
         Op::Out => "o".into(), Op::Mul(m) => format!("m{}", hx(*m)), Op::SetP(s) => format!("p{}", hx(*s)), Op::SetS(s) => format!("s{}", hx(*s)),
-        Op::SetH(a, b) => format!("h{}:{}", hx(*a), hx(*b)), Op::Until(c) => format!("u{}", c),
+        Op::SetH(a, b) => format!("h{}:{}", hx(*a), hx(*b)), Op::Until(c) => format!("u{}", c), Op::Src => "z".into(),
     }
 }
 
@@ -160,6 +160,8 @@ trait Dut<F> {
     fn set_s(&mut self, s: f64);
     fn set_h(&mut self, a: f64, b: f64);
     fn until(&mut self, cap: usize) -> usize;
+    /// `into_source()` (also `source()` / `source_mut()` first): the next two frames of the source handed back
+    fn finish(self: Box<Self>) -> Vec<F>;
 }
 impl<S: Signal, I: Interpolator<Frame = S::Frame>> Dut<S::Frame> for Converter<S, I> {
     fn exh(&self) -> bool { self.is_exhausted() }
@@ -169,6 +171,16 @@ impl<S: Signal, I: Interpolator<Frame = S::Frame>> Dut<S::Frame> for Converter<S
     fn set_s(&mut self, s: f64) { self.set_sample_hz_scale(s) }
     fn set_h(&mut self, a: f64, b: f64) { self.set_hz_to_hz(a, b) }
     fn until(&mut self, cap: usize) -> usize { self.by_ref().until_exhausted().take(cap).count() }
+    fn finish(mut self: Box<Self>) -> Vec<S::Frame> {
+        let e0 = self.source().is_exhausted();
+        let a = self.source_mut().next();
+        let e1 = self.source().is_exhausted();
+        let mut s = self.into_source();
+        let e2 = s.is_exhausted();
+        assert!(e1 == e2 && (!e0 || e1), "source()/source_mut()/into_source() disagree about exhaustion");
+        let b = s.next();
+        vec![a, b]
+    }
 }
 /// `Signal::mul_hz` with a never-exhausted control signal fed from a queue
 struct MulDut<M> { sig: M, q: Rc<RefCell<VecDeque<f64>>> }
@@ -180,6 +192,7 @@ impl<M: Signal> Dut<M::Frame> for MulDut<M> {
     fn set_s(&mut self, _: f64) { unreachable!() }
     fn set_h(&mut self, _: f64, _: f64) { unreachable!() }
     fn until(&mut self, _: usize) -> usize { unreachable!() }
+    fn finish(self: Box<Self>) -> Vec<M::Frame> { unreachable!() }
 }
 
 fn build<F: Fr, I: Interpolator<Frame = F> + 'static>(src: Counted<signal::FromIterator<std::vec::IntoIter<F>>>, ip: I, ctor: Ctor) -> Option<Box<dyn Dut<F>>>
@@ -273,8 +286,11 @@ where F::Sample: dasp_sample::Duplex<f64> {
     let mut acc_ref: f64 = 0.0;
     let mut pulls_ref: u64 = 0;
 
-    for o in &c.ops {
+    let fin = matches!(c.ops.last(), Some(Op::Src));
+    let body = if fin { &c.ops[..c.ops.len() - 1] } else { &c.ops[..] };
+    for o in body {
         match *o {
+            Op::Src => unreachable!(),
             Op::SetP(s) => { dut.set_p(s); ratio = s; obs.push("-".into()); evals += 1; continue; }
             Op::SetS(s) => { dut.set_s(s); ratio = 1.0 / s; obs.push("-".into()); evals += 1; continue; }
             Op::SetH(a, b) => { dut.set_h(a, b); ratio = a / b; obs.push("-".into()); evals += 1; continue; }
@@ -428,6 +444,18 @@ where F::Sample: dasp_sample::Duplex<f64> {
         n_out += 1;
         last_pulls = pl;
     }
+    if fin {
+        // what is left behind: the source handed back continues exactly after the frames the converter pulled
+        let before = pulls.get();
+        let fs = dut.finish();
+        let after = pulls.get();
+        evals += 3;
+        obs.push(format!("z{}/{}", fs.iter().map(|f| f.show()).collect::<Vec<_>>().join(";"), after));
+        st.count("op_into_source");
+        let want = [src_at(&c.frames, before as u128), src_at(&c.frames, before as u128 + 1)];
+        if fs.len() == 2 && fs[0] == want[0] && fs[1] == want[1] && after == before + 2 { st.oracle_ok(1); }
+        else { st.oracle_fail("source()/source_mut()/into_source(): the source handed back does not continue right after the frames the converter pulled", &case_text, &format!("{};{}/{}", want[0].show(), want[1].show(), before + 2), &format!("{}/{}", fs.iter().map(|f| f.show()).collect::<Vec<_>>().join(";"), after)); }
+    }
     if saw_multi { st.count("case_with_multi_pull_output"); }
     if saw_exh { st.count("case_reaching_exhaustion"); }
     Outcome { op_line, obs_line: obs.join(" "), nontrivial: saw_frac && (saw_multi || saw_exh || c.linear), evals }
@@ -486,6 +514,11 @@ fn gen_case<F: Fr>(rng: &mut Rng, linear: bool, len: usize, kind: u64, st: &mut 
         _ => { let r = match rng.below(3) { 0 => dyadic(rng, false), 1 => dyadic(rng, true), _ => any_ratio(rng) };
                ctor = if rng.chance(1, 4) { Ctor::S(1.0 / r) } else { Ctor::P(r) };
                ops.push(Op::Until(20000)); ops.push(Op::Out); st.count("kind_until_exhausted"); }
+    }
+    // half of the plain-converter cases end by taking the source back (early, while it still holds frames, or late)
+    if ctor != Ctor::M && rng.chance(1, 2) {
+        if rng.chance(1, 2) { let k = 1 + rng.usize_below(6); if ops.len() > k { ops.truncate(k); } }
+        ops.push(Op::Src);
     }
     Case { linear, ctor, frames, ops }
 }
